@@ -564,6 +564,26 @@ class Executor:
             raise
         self.run(s.finalbody, env)
 
+    def st_With(self, s, env):
+        """`with cm [as x]: body` for values that model a context manager (sx_enter / sx_exit): __enter__, then the body,
+        then __exit__ on every way out (normal, return, break/continue, exception).  The managers modelled never
+        swallow an exception."""
+        if len(s.items) != 1:
+            raise Unsupported("with statement with several managers", s)
+        item = s.items[0]
+        cm = self.ev(item.context_expr, env)
+        if not (hasattr(cm, "sx_enter") and hasattr(cm, "sx_exit")):
+            raise Unsupported("with statement on this value", s)
+        v = cm.sx_enter(self, s)
+        if item.optional_vars is not None:
+            self.bind(item.optional_vars, v, env, s)
+        try:
+            self.run(s.body, env)
+        except (ReturnSig, RaiseSig, BreakSig, ContinueSig):
+            cm.sx_exit(self, s)
+            raise
+        cm.sx_exit(self, s)
+
     def st_Import(self, s, env):
         pass
 
